@@ -38,6 +38,16 @@ def run(ctx):
     if not tlc.expect_ok(ctx, r, "MC_Serial"):
         raise CheckBroken("specification Serial violates %s" % r.violated)
     ctx.sample({"model": "MC_Serial", "distinct_states": r.distinct})
+    # 1b. the transports under the grammar (Transport.tla): whole-array and block-wise writers put out exactly the bytes of the calls; the two wrong designs
+    #     (block loop one iteration short on exact multiples; zero-byte read accepted at end of file) are rejected
+    for cfg, want in (("Transport_whole.cfg", None), ("Transport_blocks.cfg", None), ("Transport_mut_short.cfg", "ExportExact"), ("Transport_mut_eofok.cfg", "NoSilentAccept")):
+        rt = tlc.run_tlc("Transport", cfg=cfg, workdir=ctx.dir, workers=4)
+        if want is None:
+            if not tlc.expect_ok(ctx, rt, "Transport/" + cfg):
+                raise CheckBroken("specification Transport (%s) violates %s" % (cfg, rt.violated))
+        elif rt.ok or want not in (rt.violated or ""):
+            raise CheckBroken("specification Transport (%s) does not reject the wrong design (expected %s, got %s)" % (cfg, want, rt.violated))
+        ctx.sample({"model": "Transport", "cfg": cfg, "distinct_states": rt.distinct, "expected": want or "ok"})
     # 2. round trips on the real library: every type, both transports, alone and back to back, parameter values incl. the default noise levels
     cfgs = [("spqlios-fma", "optim"), ("nayuki-portable", "debug")] + ([("fftw", "optim"), ("spqlios-avx", "debug"), ("nayuki-avx", "optim")] if thorough else [])
     for be, kind in cfgs:
